@@ -103,6 +103,11 @@ def check(repo: Repo) -> Result:
     readonly_default(repo, res)
     registry_selection(repo, res)
     namespaces(repo, res)
+    from rules import c07
+    from rules.common import share
+
+    r6 = res.rule("C13-R6", "the unit attached to a ufunc result comes from the unit rule applied to the operands' units (or is re-created in that unit's registry): never a constant bound to the default registry", floor=4)
+    share(res, r6, "C07", lambda t: c07.wrapup_rule(repo, t), ["C07-R4"], want=lambda k: k.startswith("unit-def:"), min_keys=4)
     return res
 
 
@@ -138,6 +143,44 @@ def ownership(repo, res):
                 for c in walk_no_nested(f.node):
                     if isinstance(c, ast.Call) and norm(c.func) == "copy.copy" and c.args and norm(c.args[0]).endswith("registry"):
                         res.bad(f"{mod.rel.split('/')[-1]}:{q}:shallow-registry-copy", f.where(c), f"{q} shallow-copies a registry: the copy is a second registry object sharing the table and the unit cache of the original", "copy.deepcopy or the same registry object", norm(c), rid=r1)
+    # Unit.copy(deep=True) / deepcopy(unit): the copy must own a copy of the registry on EVERY deep path - also when
+    # the original lives in the default registry: add() is allowed there, and through a shared object it would edit
+    # the process-wide default table
+    from engine.sem import summarise
+    from rules.common import bind_call
+
+    uo_ = repo.mod(UO)
+    cp = uo_.func("Unit.copy")
+    res.fn(cp)
+    newf = uo_.func("Unit.__new__")
+    n_deep = 0
+    shared = []
+    for x in summarise(cp):
+        if x.kind != "return":
+            continue
+        v = ast.parse(x.value, mode="eval").body
+        if not (isinstance(v, ast.Call) and norm(v.func) == "Unit"):
+            raise AnalysisError(f"{cp.where()}: Unit.copy returns something that is not a Unit(...) call: {x.value[:60]}")
+        rg = bind_call(v, newf, skip_self=True).get("registry")
+        # a conditional expression in the argument is one more branch on `deep`
+        alts = [(None, rg)]
+        if isinstance(rg, ast.IfExp) and norm(rg.test) in ("deep", "not deep"):
+            pos = norm(rg.test) == "deep"
+            alts = [(True, rg.body if pos else rg.orelse), (False, rg.orelse if pos else rg.body)]
+        for deep_here, e_ in alts:
+            is_deep = x.has("deep", True) if deep_here is None else (deep_here and not x.has("deep", False))
+            if not is_deep:
+                continue
+            n_deep += 1
+            txt = norm(e_) if e_ is not None else None
+            if txt not in ("copy.deepcopy(self.registry)", "deepcopy(self.registry)"):
+                shared.append((sorted(f"{t}={tr}" for t, tr in x.facts), txt))
+    if n_deep == 0:
+        raise AnalysisError(f"{cp.where()}: no path of Unit.copy with deep=True found")
+    res.check(not shared, "Unit.copy:deep-owns-registry", cp.where(), "a deep copy of a unit shares its registry object with the original on some path: an add() through the copy's registry edits the original's table (for default-registry units: the process-wide default table)", "registry=copy.deepcopy(self.registry) on every deep path", shared[:2], rid=r1)
+    dcu = uo_.func("Unit.__deepcopy__")
+    rets = [norm(n.value) for n in walk_no_nested(dcu.node) if isinstance(n, ast.Return)]
+    res.check(rets in (["self.copy(deep=True)"],), "Unit.__deepcopy__", dcu.where(), "copy.deepcopy(unit) is unit.copy(deep=True)", found=rets, rid=r1)
     # module-level default registry
     d = reg.assign("default_unit_registry")
     res.check(isinstance(d, ast.Call) and norm(d) == "_NonModifiableUnitRegistry()", "default-registry", REG, "the default registry is built with its own table (no lut argument) by the non-modifiable class", found=norm(d), rid=r1)
@@ -372,4 +415,6 @@ MUTANTS = [
     Mutant("mul-null-fastpath-right-registry", UO, "Unit.__mul__", "        base_offset = 0.0\n        if self.base_offset or u.base_offset:\n            if u.dimensions", "        if self.expr is sympy_one and self.base_value == 1.0:\n            return u.copy()\n        base_offset = 0.0\n        if self.base_offset or u.base_offset:\n            if u.dimensions", ("C13-R4",)),
     Mutant("mul-null-fastpath-left-copy", UO, "Unit.__mul__", "        base_offset = 0.0\n        if self.base_offset or u.base_offset:\n            if u.dimensions", "        if u.expr is sympy_one and u.base_value == 1.0:\n            return self.copy()\n        base_offset = 0.0\n        if self.base_offset or u.base_offset:\n            if u.dimensions", (), benign=True),
     Mutant("old-registry-fixed-in-place", REG, "_correct_old_unit_registry", "    lut = {}\n", "    lut = data\n", ("C13-R1",)),
+    Mutant("deep-copy-shares-default-registry", UO, "Unit.copy", "        if deep:\n", "        if deep and self.registry is not default_unit_registry:\n", ("C13-R1",)),
+    Mutant("ratio-shortcut-null-unit", ARR, "unyt_array.__array_ufunc__", "unit = Unit(registry=unit.registry)", "unit = NULL_UNIT", ("C13-R6",)),
 ]
